@@ -37,8 +37,11 @@ def stmt(op, dst=None, src=None, v=0, d=0, flags="ANY", body=(), els=()):
 
 # ---- declarations ------------------------------------------------------------------------------------
 def rand_decl(rng):
+    # some declarations may use fixed point, a quarter hash variables with an explicit byte order (the abstract
+    # value of such a variable is the same integer; only the bytes of its cell are ordered differently)
     d = mapdecl.rand_decl(rng, arrays=False, percpu=False,
-                          hash_fmts="bBhHiIqQ" + ("xx" if rng.random() < 0.4 else ""))
+                          hash_fmts=list("bBhHiIqQ") + (["x", "x"] if rng.random() < 0.4 else [])
+                          + (mapdecl.ORDERED_FMTS if rng.random() < 0.25 else []))
     if d["hash"]:
         for v in d["hash"]["vars"]:
             if v["fmt"] == "x":
@@ -81,7 +84,7 @@ def tla_decl(decl, names, prog, ncpu):
     def default(fmt, v):
         return M.word(round(v * M.SCALE) if fmt == "x" else v)
     return dict(avars=[dict(f=dict(n=1, c=f), percpu=False) for _, f in names.outs], ncpu=ncpu,
-                hvars=[dict(c=f, **{"def": default(f, dv)}) for _, f, dv in names.hvars],
+                hvars=[dict(c=f[-1], **{"def": default(f, dv)}) for _, f, dv in names.hvars],
                 dicts=[dict(key=[f for _, f in dd["key"]], val=[f for _, f in dd["value"]], cap=dd["size"],
                             lru=dd["lru"]) for dd in names.dicts],
                 prog=strip(prog))
@@ -619,6 +622,24 @@ def pred_hash_read_r0(case, reason=None, silent_ok=True):
     return False
 
 
+def pred_ordered_hash(case, reason=None):
+    """a hash variable declared with an explicit byte order: the Python getter unpacks with the declared order,
+    the Python setter and the program use the host's order (and the program does not sign-extend it)"""
+    if case["part"] != "history":
+        return False
+    ordered = [v["name"] for v in (case["decl"]["hash"] or dict(vars=[]))["vars"] if len(v["fmt"]) > 1]
+    if not ordered:
+        return False
+    e = case["event"]
+    if e["op"] in ("pyread_h", "pywrite_h"):
+        return len(case["fmt"] or "") > 1
+    # a result variable / Dict member the program computed from such a variable
+    return e["op"] in ("pyread_a", "d_get", "d_pop", "d_items", "d_in", "d_iter") and \
+        any(s["op"] in ("copy", "add") and s["src"].startswith("h") and
+            len(case["decl"]["hash"]["vars"][int(s["src"][1:].split(".")[0]) - 1]["fmt"]) > 1
+            for s in flat(case["stmts"]))
+
+
 def pred_f3(case, reason=None):
     """fixed-point result variable one unit closer to zero (F3 of C02 / C08)"""
     if case["part"] != "history" or case["fmt"] != "x" or case["event"]["op"] != "pyread_a":
@@ -636,7 +657,8 @@ def classify(ctx):
                ("constant assigned to a hash variable in a program (AttributeError)", pred_const_to_hash),
                ("hash variable read while r0 is in use (after a Dict operation): program refused", pred_hash_read_r0_refused),
                ("F3 fixed-point truncation", pred_f3),
-               ("F10 x-format hash variable", pred_x_hash)]
+               ("F10 x-format hash variable", pred_x_hash),
+               ("hash variable with an explicit byte order: Python getter vs setter / program", pred_ordered_hash)]
     tally = {name: 0 for name, _ in classes}
     tally["not explained"] = 0
     shown = {}
